@@ -677,9 +677,11 @@ class UniformGrid(_HyperRectangleGrid):
         # Add one to include the upper-bound as well.
         shape = np.ceil(shape)
         shape = np.array(shape, int)
-        # Compute origin by taking the center of mass then subtracting the half of the number
-        #    of points in the direction of the axes.
-        origin = com - np.dot((0.5 * shape), axes)
+        # Compute origin by taking the center of the box then subtracting the half of the number
+        #    of points in the direction of the axes. Without rotation the box is centered on the
+        #    middle of the atomic extent, so that every nucleus keeps the requested extension.
+        center = com if rotate else 0.5 * (max_coordinate + min_coordinate)
+        origin = center - np.dot((0.5 * shape), axes)
         return cls(origin, axes, shape, weight)
 
     @classmethod
